@@ -167,8 +167,17 @@ def opsAlg : List (String × OpFn) := [
   ("basis.show", do let b ← basisArg; pure (showBasis b)),
   ("basis.seq", do
       let n ← nat
-      let bs ← listOf n basisArg
-      pure (showBasis (bs.getLastD Basis.linear))),
+      -- a history on the process-wide basis (linear at the start of the line); "bad" is a refused setting
+      let rec go (k : Nat) (b : Basis Rat) : Rd (Basis Rat) :=
+        match k with
+        | 0 => pure b
+        | k+1 => do
+          let saved ← get
+          match (← tok) with
+          | "bad" => go k (Basis.refuse b)
+          | _ => do set saved; let b' ← basisArg; go k b'
+      let b ← go n Basis.linear
+      pure (showBasis b)),
   ("basis.inout", do
       let b ← basisArg
       let v ← vec 3
